@@ -8,6 +8,13 @@ Scenario:  <cli> <rethrow> <filter> <runign> <repeat> <ntests> { <ignored> <sel>
             :n no-op, :c passing check, :x C++-style failing check, :j C-style (longjmp) failing check, :s throw std::runtime_error, :o throw int;
             ":r c k A B" = static state in the test: behaves as A in the repetitions whose number (from 0) satisfies c k, as B in the others;
             a conditional plugin line is reported only in the matching repetitions; <repeat> is the number after -r, -r0 repeats twice)
+           compound statements (builds with exceptions only; a base, also inside ":r"):
+            ":t :<hk> <n> inner* <m> inner*" = try { n inner statements } catch (<hk>) { m inner statements }, hk = :std | :int | :unrel | :all
+            ":w :<ek> <file> <line> <n> inner*" = CHECK_THROWS(<ek>, helper()) with helper() = the n inner statements, ek = :std | :int | :unrel,
+              reported at FILES[file]:(7000 + 16*file + ek) (the macro takes __FILE__, __LINE__ of its expansion in the harness)
+            inner = :n | :c | :x f l | :j f l | :s | :o | :k ...; every executed inner statement is logged as a sub event (test phase idx sub)
+           optional suffix ":mac" = the tests are made by the public macros (TEST_GROUP / TEST / IGNORE_TEST; TEST_SETUP / TEST_TEARDOWN when the
+            test has setup or teardown statements) from a fixed pool of the harness (at most 16 TESTs / 8 IGNORE_TESTs of each of the two groups)
            optional suffix ":io <sink> <sep> <verbose> <color> <cap>" = console mode: the run goes through CommandLineTestRunner, the real
             ConsoleTestOutput and the real stdio stream; descriptor 1 is a pipe (sink 1) or a regular file (sink 2), stdout fully buffered
             with <cap> bytes, -p (every test in a forked child) / -v / -c as given; the observation is read back from the captured bytes
@@ -31,9 +38,32 @@ RULE = ("programs of 0-60 scripted tests, phases of 0-5 statements; every assert
         "the captured bytes read back: every failure kind x phase in a child, runs of failing tests (the runner has printed before it forks), several "
         "repetitions (a summary has been printed before the next forks), children that print more than a buffer holds, ignored / filtered-out tests, "
         "every assert entry point failing in a child, random programs; "
-        "flavour noexc (-fno-exceptions) judges the programs without throw statements. "
+        "user try blocks (builds with exceptions): a statement of a phase may be try { block } catch (std::exception& | int | an unrelated class | ...) "
+        "{ handler } or CHECK_THROWS(std::exception | int | unrelated, helper-with-checks), every statement inside logged as a sub event: a failing "
+        "C++-style / C-style check (every assert entry point) at every position of the block x every phase x handlers that fail again / swallow / "
+        "check / throw, statements behind the check, the handler and the try block; every handler type x every way the block is left (completes, "
+        "C-style check, C++-style check, std exception, foreign exception) x every way the handler is left; CHECK_THROWS x expected type x how the "
+        "helper is left x file; several compound statements per test, static state, runs of 12-19 tests leaving from inside a try block; catch (...) / "
+        "CHECK_THROWS around a C++-style check that can fail are generated too but only compared with the model (outside the oracle); "
+        "tests made by the PUBLIC MACROS (TEST_GROUP, TEST, IGNORE_TEST, TEST_SETUP / TEST_TEARDOWN; a pool of 48 macro-made shells relabelled per "
+        "scenario) instead of hand-made shells: a failing IGNORE_TEST of every kind x phase next to TESTs x -ri / not x command-line runner / "
+        "registry x repeat, body-only groups and groups with setup / teardown, only ignored tests, -ri with a name filter and static state, every "
+        "assert entry point in an IGNORE_TEST run with -ri, the pool's limits (48 tests, all failing), try blocks inside macro-made tests, the real "
+        "console with and without -p, random programs with 20-100% ignored tests; "
+        "flavour noexc (-fno-exceptions) judges the programs without throw statements and try blocks. "
         "non-trivial = at least one test that is started has a failing statement, an escaping exception or a plugin failure")
 ASSUMPTIONS = ["rethrowExceptions off (-e / -ci) whenever a program can throw: DESIGN C01 scope decision",
+               "catch (...) around a C++-style check that can fail (also the one inside CHECK_THROWS) is outside what the oracle judges: in a build "
+               "with exceptions the language hands the exit of a failing check to every enclosing catch (...), the handler decides what happens next, "
+               "no exception-based exit can prevent it; the model mirrors the language there and is compared with the implementation. A handler for "
+               "std::exception or any other TYPE is inside: the exit of a failing check must pass it (no handler statement, nothing behind the try block, "
+               "one record)",
+               "try blocks are not nested; the statements inside are simple statements; CHECK_THROWS is reported at the place the harness expands it "
+               "(one expansion per expected type and file); handler types: const std::exception&, int (the foreign exception thrown is an int), "
+               "a class nothing thrown is an instance of, ...; a handler's `throw;` is not in the language (a handler that throws is)",
+               "macro-made tests: the shells the macros define are relabelled (setGroupName / setTestName / setFileName / setLineNumber) and put into a "
+               "private registry; CommandLineTestRunner(ac, av, registry)::runAllTestsMain is the entry point (the static RunAllTests adds the "
+               "memory-leak plugin only); at most 16 TESTs and 8 IGNORE_TESTs per group and scenario",
                "fewer than 2^31 failures in total (the runner's size_t -> int return value would wrap; needs 2^32 failing checks)",
                "failing checks in constructors/destructors of tests and exceptions thrown by plugins are outside the quantifier",
                "longjmp and C++ unwinding obey their contract (the instrumented ASan/UBSan runs exhibit the real ones)",
@@ -58,6 +88,7 @@ CXX_KINDS = ["true", "cstreq", "cstrneq", "nocaseeq", "contains", "nocasecontain
 C_KINDS = ["c_bool", "c_int", "c_uint", "c_long", "c_ulong", "c_llong", "c_ullong", "c_real", "c_char", "c_ubyte", "c_sbyte", "c_string",
            "c_pointer", "c_memcmp", "c_memcmp0", "c_bits", "c_failtext", "c_fail", "c_check"]
 CK_NAMES = CXX_KINDS + C_KINDS + ["m_compare"]
+C_STYLE = set(C_KINDS)
 ALWAYS_FAIL = ("fail", "c_failtext", "c_fail")
 ZERO_LENGTH = ("binary0", "c_memcmp0")
 NULL_SENSITIVE = ("cstreq", "cstrneq", "nocaseeq", "contains", "nocasecontains", "ptrs", "binary", "binary0", "c_string", "c_pointer", "c_memcmp", "c_memcmp0")
@@ -77,6 +108,20 @@ def k_counted(kind, agree):
 
 def ck(kind, agree, line, file=0):
     return ":k :%s %x %x %x" % (kind, int(agree), file, line)
+
+
+HK = ["std", "int", "unrel", "all"]
+EK = ["std", "int", "unrel"]
+
+
+def tr(hk, blk, hd):
+    """try { blk } catch (hk) { hd }"""
+    return ":t :%s %s %s" % (hk, lst(blk), lst(hd))
+
+
+def cthrows(ek, blk, file=0):
+    """CHECK_THROWS(ek, helper()) at the location the harness expands it at"""
+    return ":w :%s %x %x %s" % (ek, file, 7000 + 16 * file + EK.index(ek), lst(blk))
 
 
 def st(kind, rng=None, tline=100):
@@ -105,9 +150,10 @@ def rline(op, k, line):
     return ":r :%s %x %x" % (op, k, line)
 
 
-def scn(tests, cli=0, rethrow=0, filt=0, runign=0, repeat=1, io=None):
-    """io = (sink, sep, verbose, color, cap) or None"""
-    return " ".join(["%x %x %x %x %x" % (cli, rethrow, filt, runign, repeat), lst(tests)] + ([":io %x %x %x %x %x" % tuple(io)] if io else []))
+def scn(tests, cli=0, rethrow=0, filt=0, runign=0, repeat=1, io=None, mac=0):
+    """io = (sink, sep, verbose, color, cap) or None; mac = tests made by the public macros"""
+    return " ".join(["%x %x %x %x %x" % (cli, rethrow, filt, runign, repeat), lst(tests)] + ([":mac"] if mac else [])
+                    + ([":io %x %x %x %x %x" % tuple(io)] if io else []))
 
 
 PASS = lambda: test(body=[":c", ":n"])
@@ -194,7 +240,37 @@ def rand_kind_line(rng):
     return rng.randrange(201, 3999)       # never a TEST's own line (1, 20, 100, 4000)
 
 
+def rand_inner(rng, pfail, line, n=None):
+    """statements inside a try block: simple ones"""
+    out = []
+    for _ in range(rng.choice([0, 1, 1, 2, 3]) if n is None else n):
+        if rng.random() < pfail:
+            if rng.random() < 0.4:
+                k = rng.choice([k for k in CK_NAMES if k not in ZERO_LENGTH])
+                out.append(ck(k, 0, rand_kind_line(rng), int(rng.random() < 0.25)))
+            else:
+                out.append(st(rng.choice(KINDS), rng, line))
+        else:
+            out.append(rng.choice([":n", ":c", ":c", ck("longs", 1, rand_kind_line(rng))]))
+    return out
+
+
+def rand_compound(rng, pfail, line):
+    """a try block or a CHECK_THROWS; catch (...) / CHECK_THROWS around a C++-style check that can fail (outside the oracle) only now and then"""
+    for _ in range(20):
+        if rng.random() < 0.7:
+            x = tr(rng.choice(["std", "std", "int", "unrel", "all"]), rand_inner(rng, max(pfail, 0.4), line), rand_inner(rng, pfail * 0.7, line))
+        else:
+            x = cthrows(rng.choice(EK), rand_inner(rng, max(pfail, 0.5), line), int(rng.random() < 0.3))
+        cfg, tests = parse(scn([test(body=[x])]))
+        if not intercepting(tests) or rng.random() < 0.1:
+            return x
+    return x
+
+
 def rand_base(rng, pfail, line, allow_throw=True):
+    if allow_throw and rng.random() < 0.07:
+        return rand_compound(rng, pfail, line)
     if rng.random() < pfail:
         if rng.random() < 0.35:
             k = rng.choice([k for k in CK_NAMES if k not in ZERO_LENGTH])
@@ -340,6 +416,149 @@ def console(tier, rng):
     return out
 
 
+def try_blocks(tier, rng):
+    """statements inside user try blocks: a failing check must pass every handler for a type (std::exception included), nothing behind it
+    runs -- not the rest of the block, not the handler, not what stands behind the try block -- and it is recorded once; exceptions of the
+    program's own are caught by the handlers that match; CHECK_THROWS around helpers that contain checks"""
+    out = []
+    modes = [dict(cli=0), dict(cli=1), dict(cli=1, repeat=2)]
+    n = [rng.randrange(6)]
+
+    def mode():
+        n[0] += 1
+        return modes[0] if n[0] % 2 else modes[1] if n[0] % 6 else modes[2]
+
+    def one(ph, stmts, before=(":n",), after=(":c",), **kw):
+        p = [[":c"], [":c"], [":c"]]
+        p[ph] = list(before) + list(stmts) + list(after)
+        return test(line=100, setup=p[0], body=p[1], teardown=p[2], **kw)
+    # a failing C++-style check inside try { } catch (const std::exception&) { }, in every phase: the handler fails again / swallows /
+    # checks / fails C-style; the check first or behind a passing one; statements behind the check, the handler and the try block
+    for ph in range(3):
+        for hd in ([":x 0 6b"], [], [":c"], [":j 1 6c"], [":n", ":c"]):
+            for failing in (":x 0 69", ck("longs", 0, 0x69), ck("true", 0, 0x6d, 1)):
+                for pos in (0, 1):
+                    x = tr("std", [":c"] * pos + [failing, ":c"], hd)
+                    out.append(scn([PASS(), one(ph, [x]), PASS()], **mode()))
+    # ... through every assert entry point (C++ and C), handler = FAIL(e.what())
+    for j, kind in enumerate(k for k in CK_NAMES if k not in ZERO_LENGTH):
+        x = tr("std", [":c", ck(kind, 0, 201 + 2 * j, j % 2), ":c"], [":x 0 %x" % (301 + j)])
+        out.append(scn([one(1 if j % 3 else (j // 3) % 3 * 2 % 3, [x])] + ([PASS()] if j % 2 else []), **mode()))
+    # every handler type x how the block is left x what the handler does (catch (...) around a C++-style failing check is outside the oracle:
+    # there the model is compared)
+    for hk in HK:
+        for ending in ([":x 0 69"], [":j 1 69"], [":s"], [":o"], [], [ck("bits", 0, 0x71)], [ck("c_int", 0, 0x73, 1)]):
+            for hd in ([], [":c"], [":x 1 6b"], [":j 0 6b"], [":s"], [":o"], [":c", ck("doubles", 0, 0x75), ":c"]):
+                if tier == "quick" and rng.random() < 0.45:
+                    continue
+                x = tr(hk, [":c"] + ending + [":c"], hd)
+                out.append(scn([one(rng.choice([0, 1, 1, 2]), [x]), PASS()], **mode()))
+    # CHECK_THROWS(expected, helper()) with checks inside the helper
+    for ek in EK:
+        for ending in ([":s"], [":o"], [], [":j 0 79"], [ck("c_string", 0, 0x7b)], [":x 0 7d"], [ck("cstreq", 0, 0x7f)]):
+            for f in (0, 1):
+                x = cthrows(ek, [":c"] + ending + [":n"], f)
+                out.append(scn([one((f + len(ending) + EK.index(ek)) % 3, [x], after=(":c", ":n")), PASS()], **mode()))
+    # several compound statements in one test; a try block in setup and one in teardown; a try block behind a failing statement (never reached)
+    caught = tr("std", [":c", ":s", ":c"], [":c"])
+    through = tr("int", [":n", ":x 0 81", ":c"], [":c"])
+    cjump = tr("unrel", [":j 1 83"], [":x 0 85"])
+    esc = tr("std", [":o"], [":c"])
+    for a, b in itertools.product((caught, through, cjump, esc), repeat=2):
+        out.append(scn([test(line=100, setup=[a, ":c"], body=[":c", caught, b, ":c"], teardown=[b, a]), PASS()], **mode()))
+    out.append(scn([test(line=100, body=[":x 0 87", through, ":c"], teardown=[cthrows("std", [":s"]), ":c"])], **mode()))
+    # static state: the check inside the try block fails in one repetition only
+    for R, pos in ((2, 0), (2, 1), (3, 1)):
+        x = rif("eq", pos, tr("std", [":c", ":x 0 89", ":c"], [":x 0 8b"]), tr("std", [":c", ":c"], [":x 0 8b"]))
+        out.append(scn([PASS(), test(line=100, body=[":c", x, ":c"], teardown=[":c"])], cli=1, repeat=R))
+        out.append(scn([test(line=100, body=[rif("ne", pos, caught, through), ":c"])], cli=1, repeat=R))
+    # long runs of tests that leave from inside a try block (beyond the 10 jump-buffer slots), every way of leaving
+    for x in (through, cjump, esc, tr("std", [":s"], [":j 0 8d"]), cthrows("int", [":c"]), cthrows("unrel", [":j 1 8f"])):
+        for ph in ((0, 1, 2) if tier == "thorough" else (rng.randrange(3),)):
+            out.append(scn([one(ph, [x]) for _ in range(rng.randrange(12, 20))] + [PASS()], cli=rng.randrange(2)))
+    if tier == "thorough":
+        for hk in HK:
+            for ph in range(3):
+                for _ in range(150):
+                    x = tr(hk, rand_inner(rng, 0.5, 100), rand_inner(rng, 0.4, 100))
+                    out.append(scn([one(ph, [x]), PASS()], **mode()))
+        for ek in EK:
+            for _ in range(150):
+                out.append(scn([one(rng.randrange(3), [cthrows(ek, rand_inner(rng, 0.5, 100), rng.randrange(2))]), PASS()], **mode()))
+    return out
+
+
+def macro_tests(tier, rng):
+    """test programs written with the public macros (TEST_GROUP, TEST, IGNORE_TEST, TEST_SETUP / TEST_TEARDOWN) instead of hand-made
+    shells: what the macros generate (createTest() of the shell, the group's setup / teardown) is part of what runs; aimed at -ri"""
+    out = []
+    full = lambda **kw: test(setup=[":n"], body=[":c", ":n"], teardown=[":n"], **kw)
+    # an IGNORE_TEST that fails (every kind x phase, plugin included) next to TESTs, with and without -ri, through the command-line runner
+    # and through the registry; the failing check of an ignored test counts exactly when the test is run
+    for cli in (1, 0):
+        for runign in (1, 0):
+            for (kind, phase) in KIND_PHASE:
+                if tier == "quick" and not runign and rng.random() < 0.5:
+                    continue
+                out.append(scn([PASS(), failing_test(kind, phase, rng, ign=1), full()], cli=cli, runign=runign, mac=1,
+                               repeat=rng.choice([1, 1, 2]) if cli else 1))
+    # tests of a group without setup / teardown (body only) and of one with; only ignored tests; only a failing ignored test
+    for runign in (1, 0):
+        for cli in (1, 0):
+            for b in (":x 0 69", ":j 1 6b", ":s", ":o", ck("longs", 0, 0x6d), ck("c_int", 0, 0x6f, 1)):
+                out.append(scn([test(ign=1, body=[":c", b, ":c"])], cli=cli, runign=runign, mac=1))
+                out.append(scn([test(body=[":c"]), test(ign=1, body=[":n", b, ":c"]), full(ign=1)], cli=cli, runign=runign, mac=1))
+            out.append(scn([test(ign=1, body=[":c"]), full(ign=1)], cli=cli, runign=runign, mac=1))
+            out.append(scn([test(ign=1), test(ign=1, setup=[":c"]), test(), test(teardown=[":c"])], cli=cli, runign=runign, mac=1))
+    # -ri with a name filter, repetitions, static state in an ignored test
+    for R in (2, 3, 0):
+        pos = rng.randrange(R if R else 2)
+        out.append(scn([full(), failing_test("x", 1, rng, ign=1, when=("eq", pos)), test(sel=0, ign=1, body=[":x 0 5"])], cli=1, filt=1, runign=1, repeat=R, mac=1))
+        out.append(scn([failing_test("j", 2, rng, ign=1, when=("ne", pos)), PASS()], cli=1, runign=1, repeat=R, mac=1))
+        out.append(scn([failing_test("s", 0, rng, ign=1, when=("eq", pos)), PASS()], cli=1, runign=0, repeat=R, mac=1))
+    # every assert entry point inside the body of an IGNORE_TEST run with -ri
+    for j, kind in enumerate(CK_NAMES):
+        line = (110, 109, 111)[j % 3]
+        out.append(scn([test(line=100, ign=1, setup=[":c"] if j % 2 else [], body=[":c", ck(kind, 0, line, j % 2), ":c"]), PASS()],
+                       cli=j % 3 != 0, runign=1, mac=1))
+    # the pool's limits: 16 TESTs and 8 IGNORE_TESTs of each group, all failing (a long failing run through macro-made shells)
+    big = ([failing_test(KINDS[j % 4], j % 3, rng) for j in range(16)] + [test(body=[st(KINDS[j % 4], rng)]) for j in range(16)]
+           + [failing_test(KINDS[j % 4], j % 3, rng, ign=1) for j in range(8)] + [test(ign=1, body=[":c", st(KINDS[j % 4], rng)]) for j in range(8)])
+    for runign in (1, 0):
+        order = list(big); rng.shuffle(order)
+        out.append(scn(order, cli=1, runign=runign, mac=1))
+    # try blocks and CHECK_THROWS inside macro-made tests
+    for hk, blk, hd in (("std", [":c", ":x 0 69", ":c"], [":x 0 6b"]), ("std", [":s"], [":c"]), ("int", [":o"], [":j 0 6d"]), ("unrel", [":j 1 6f"], [":c"])):
+        for ign in (0, 1):
+            out.append(scn([test(ign=ign, body=[":c", tr(hk, blk, hd), ":c"]), full(ign=ign, line=20)], cli=1, runign=1, mac=1))
+    out.append(scn([test(ign=1, setup=[cthrows("std", [":c", ":s"])], body=[cthrows("int", [":c"]), ":c"], teardown=[":c"])], cli=1, runign=1, mac=1))
+    # through the real console, in one process and with every test in a forked child
+    sep_mode = io_modes(rng, sep=1); any_mode = io_modes(rng)
+    for (kind, phase) in KIND_PHASE[::2 if tier == "quick" else 1]:
+        out.append(scn([full(), failing_test(kind, phase, rng, ign=1), PASS()], cli=1, runign=1, mac=1, io=next(sep_mode)))
+        out.append(scn([failing_test(kind, phase, rng, ign=1), PASS()], cli=1, runign=rng.randrange(2), mac=1, io=next(any_mode)))
+    # random programs
+    n = 120 if tier == "quick" else 4000
+    for _ in range(n):
+        nt = rng.choice([1, 2, 3, 5, 8, 12])
+        pfail = rng.choice([0.0, 0.15, 0.3, 0.6])
+        filt = int(rng.random() < 0.3)
+        cli = int(rng.random() < 0.7)
+        repeat = rng.choice([1, 1, 2, 3, 0]) if cli else 1
+        prep = rng.choice([0, 0.2, 0.5]) if repeat != 1 else 0
+        tests = [rand_test(rng, pfail, rng.random() < 0.6, pign=rng.choice([0.2, 0.5, 0.5, 1.0]), pout=rng.choice([0, 0.1, 0.5]) if filt else 0.1, prep=prep)
+                 for _ in range(nt)]
+        if rng.random() < 0.4:      # groups without setup / teardown
+            cfg, ts = parse(scn(tests))
+            for t in ts:
+                if rng.random() < 0.6: t["ph"][0] = []; t["ph"][2] = []
+            tests = unparse(cfg, ts).split(" ", 6)[6]
+            out.append(" ".join(["%x %x %x %x %x" % (cli, 0, filt, int(rng.random() < 0.6), repeat), "%x" % nt, tests, ":mac"]))
+        else:
+            out.append(scn(tests, cli=cli, filt=filt, runign=int(rng.random() < 0.6), repeat=repeat, mac=1))
+    return out
+
+
 def rand_phase(rng, pfail, line, allow_throw=True, prep=0.0):
     n = rng.choice([0, 1, 1, 2, 2, 3, 4, 5])
     out = []
@@ -410,6 +629,8 @@ def generate(tier, rng):
     out += rep_dependent(tier, rng)
     out += check_kinds(tier, rng)
     out += console(tier, rng)
+    out += try_blocks(tier, rng)
+    out += macro_tests(tier, rng)
     # random programs
     n = 260 if tier == "quick" else 12000
     for _ in range(n):
@@ -443,11 +664,28 @@ def _toks(s):
 
 def has_throw(s):
     t = _toks(s)
-    return ":s" in t or ":o" in t
+    return ":s" in t or ":o" in t or ":t" in t or ":w" in t
+
+
+MAC_RUN, MAC_IGN = 16, 8
+
+
+def mac_fits(tests):
+    """the harness has a fixed pool of macro-made shells: per (ignored, has setup or teardown statements) class"""
+    used = {}
+    for t in tests:
+        c = (bool(t["ign"]), bool(t["ph"][0] or t["ph"][2]))
+        used[c] = used.get(c, 0) + 1
+    return all(n <= (MAC_IGN if c[0] else MAC_RUN) for c, n in used.items())
 
 
 def applies(s, flavour):
-    return not (flavour == "noexc" and has_throw(s))
+    if flavour == "noexc" and has_throw(s):
+        return False
+    if ":mac" in _toks(s):
+        cfg, tests = parse(s)
+        return mac_fits(tests)
+    return True
 
 
 def nontrivial(s):
@@ -473,6 +711,14 @@ def parse(s):
             return (k, int(nxt(), 16), int(nxt(), 16))
         if k == ":k":
             return (k, nxt()[1:], int(nxt(), 16), int(nxt(), 16), int(nxt(), 16))
+        if k == ":t":
+            hk = nxt()[1:]
+            blk = tuple(base() for _k in range(int(nxt(), 16)))
+            hd = tuple(base() for _k in range(int(nxt(), 16)))
+            return (k, hk, blk, hd)
+        if k == ":w":
+            ek = nxt()[1:]; f = int(nxt(), 16); l = int(nxt(), 16)
+            return (k, ek, f, l, tuple(base() for _k in range(int(nxt(), 16))))
         return (k,)
 
     def cond():
@@ -498,15 +744,22 @@ def parse(s):
         ph = [[stmt() for _k in range(int(nxt(), 16))] for _p in range(3)]
         pp = [[pline() for _k in range(int(nxt(), 16))] for _p in range(2)]
         tests.append(dict(ign=ign, sel=sel, line=line, ph=ph, pre=pp[0], post=pp[1]))
-    io = None
+    io = None; mac = 0
+    if pos[0] < len(t) and t[pos[0]] == ":mac":
+        mac = 1; pos[0] += 1
     if pos[0] < len(t) and t[pos[0]] == ":io":
         io = [int(x, 16) for x in t[pos[0] + 1:pos[0] + 6]]
     cfg.append(io)       # cfg[5]: None, or [sink, sep, verbose, color, cap] of the console mode
+    cfg.append(mac)      # cfg[6]: the tests are made by the public macros
     return cfg, tests
 
 
 def unparse(cfg, tests):
     def btok(x):
+        if x[0] == ":t":
+            return tr(x[1], [btok(y) for y in x[2]], [btok(y) for y in x[3]])
+        if x[0] == ":w":
+            return ":w :%s %x %x %s" % (x[1], x[2], x[3], lst([btok(y) for y in x[4]]))
         return x[0] if len(x) == 1 else ":k :%s %x %x %x" % x[1:] if x[0] == ":k" else "%s %x %x" % x
 
     def stok(x):
@@ -516,15 +769,86 @@ def unparse(cfg, tests):
         return rline(x[1], x[2], x[3]) if isinstance(x, tuple) else x
     return scn([test(t["ign"], t["sel"], t["line"], [stok(x) for x in t["ph"][0]], [stok(x) for x in t["ph"][1]],
                      [stok(x) for x in t["ph"][2]], [ptok(x) for x in t["pre"]], [ptok(x) for x in t["post"]]) for t in tests],
-               cli=cfg[0], rethrow=cfg[1], filt=cfg[2], runign=cfg[3], repeat=cfg[4], io=cfg[5] if len(cfg) > 5 else None)
+               cli=cfg[0], rethrow=cfg[1], filt=cfg[2], runign=cfg[3], repeat=cfg[4], io=cfg[5] if len(cfg) > 5 else None,
+               mac=cfg[6] if len(cfg) > 6 else 0)
+
+
+def simple_how(b):
+    """how a simple statement leaves: 'done', 'jump' (C-style failing check: longjmp), 'xfail' (C++-style failing check: the framework's
+    exception in a build with exceptions), 'std' / 'other' (an exception of the program's own)"""
+    if b[0] in (":n", ":c"): return "done"
+    if b[0] == ":x": return "xfail"
+    if b[0] == ":j": return "jump"
+    if b[0] == ":s": return "std"
+    if b[0] == ":o": return "other"
+    if b[0] == ":k":
+        return "done" if k_passes(b[1], b[2]) else "jump" if b[1] in C_STYLE else "xfail"
+    raise ValueError(b)
+
+
+def simple_counted(b):
+    return 1 if b[0] in (":c", ":x", ":j") else k_counted(b[1], b[2]) if b[0] == ":k" else 0
+
+
+def simple_fail(b):
+    """(file, line) of the record a failing check demands"""
+    return (b[3], b[4]) if b[0] == ":k" else (b[1], b[2])
+
+
+def inner_run(lst_):
+    """the statements of a block that execute (up to and including the first that does not pass) -> (n executed, checks, [(file, line)], how)"""
+    n = checks = 0; fails = []
+    for b in lst_:
+        n += 1; checks += simple_counted(b)
+        h = simple_how(b)
+        if h in ("jump", "xfail"): fails.append(simple_fail(b))
+        if h != "done": return n, checks, fails, h
+    return n, checks, fails, "done"
+
+
+def catches(hk, how):
+    """C++: catch (const std::exception&) takes the std exception, catch (int) the foreign one (an int), a handler for an unrelated class
+    nothing, catch (...) everything -- the framework's own exception of a failing C++-style check included (and ONLY catch (...) takes that)"""
+    return hk == "all" or (hk == "std" and how == "std") or (hk == "int" and how == "other")
+
+
+def b_sem(b):
+    """-> dict(how, checks, fails [(file, line)], subs [sub numbers], escapes): independent python reading of one statement of a phase"""
+    if b[0] == ":t":
+        n, c, f, h = inner_run(b[2])
+        subs = list(range(n))
+        if h in ("xfail", "std", "other") and catches(b[1], h):
+            n2, c2, f2, h2 = inner_run(b[3])
+            return dict(how=h2, checks=c + c2, fails=f + f2, subs=subs + [len(b[2]) + j for j in range(n2)])
+        return dict(how=h, checks=c, fails=f, subs=subs)
+    if b[0] == ":w":
+        n, c, f, h = inner_run(b[4])
+        subs = list(range(n))
+        if h == "jump":
+            return dict(how="jump", checks=c, fails=f, subs=subs)
+        if h in ("std", "other") and catches(b[1], h):
+            return dict(how="done", checks=c + 1, fails=f, subs=subs)
+        return dict(how="xfail", checks=c + 1, fails=f + [(b[2], b[3])], subs=subs)      # threw nothing / a different type
+    h = simple_how(b)
+    return dict(how=h, checks=simple_counted(b), fails=[simple_fail(b)] if h in ("jump", "xfail") else [], subs=[])
 
 
 def b_passes(b):
-    return b[0] in (":n", ":c") or (b[0] == ":k" and k_passes(b[1], b[2]))
+    return b_sem(b)["how"] == "done"
 
 
 def b_counted(b):
-    return 1 if b[0] in (":c", ":x", ":j") else k_counted(b[1], b[2]) if b[0] == ":k" else 0
+    return b_sem(b)["checks"]
+
+
+def b_intercepts(b):
+    """catch (...) (CHECK_THROWS has one) around a C++-style check that can fail: outside what the property's text decides"""
+    blk = b[2] if b[0] == ":t" and b[1] == "all" else b[4] if b[0] == ":w" else ()
+    return any(simple_how(y) == "xfail" for y in blk)
+
+
+def intercepting(tests):
+    return any(b_intercepts(b) for t in tests for p in t["ph"] for x in p for b in _bases(x))
 
 
 def _bases(x):
@@ -550,26 +874,35 @@ def n_reps(cfg):
     return (cfg[4] if cfg[4] else 2) if cfg[0] else 1
 
 
-def want_rep(cfg, tests, r):
+def want_rep(cfg, tests, r, with_subs=False):
     """independent python reading of what repetition r must show: (checks, [(test, file, line, kind)] in order)"""
-    res = {"checks": 0, "fails": []}
+    res = {"checks": 0, "fails": [], "subs": [], "events": []}
     for i, t0 in enumerate(tests):
         t = at_rep(t0, r)
         if (cfg[2] and not t["sel"]) or (t["ign"] and not cfg[3]):
             continue
         res["fails"] += [(i, 2, l, 3) for l in t["pre"]]
 
-        def phase(p):
-            for b in p:
-                res["checks"] += b_counted(b)
-                if not b_passes(b):
-                    res["fails"].append((i, 0, t["line"], 1) if b[0] in (":s", ":o") else (i, b[3], b[4], 0) if b[0] == ":k" else (i, b[1], b[2], 0))
+        def phase(pi, p):
+            for k, b in enumerate(p):
+                m = b_sem(b)
+                res["events"].append((i, pi, k))
+                res["checks"] += m["checks"]
+                res["fails"] += [(i, f, l, 0) for (f, l) in m["fails"]]
+                res["subs"] += [(i, pi, k, j) for j in m["subs"]]
+                if m["how"] in ("std", "other"):
+                    res["fails"].append((i, 0, t["line"], 1))
+                if m["how"] != "done":
                     return False
             return True
-        if phase(t["ph"][0]):
-            phase(t["ph"][1])
-        phase(t["ph"][2])
+        if phase(0, t["ph"][0]):
+            phase(1, t["ph"][1])
+        phase(2, t["ph"][2])
         res["fails"] += [(i, 2, l, 3) for l in t["post"]]
+    if with_subs == "all":
+        return res
+    if with_subs:
+        return res["checks"], res["fails"], res["subs"]
     return res["checks"], res["fails"]
 
 
@@ -631,6 +964,30 @@ def classify(s):
         lab.append("kind=%s:%s" % (b[0], "pass" if b[1] else "fail"))
     if any(b[0] == ":k" and b[1] in ZERO_LENGTH for t in tests for p in t["ph"] for x in p for b in _bases(x)): lab.append("zero-length-binary-compare")
     if any(b[0] == ":k" and b[1] == "m_compare" and b[2] for t in tests for p in t["ph"] for x in p for b in _bases(x)): lab.append("uncounted-passing-compare-macro")
+    extra = []
+    for t in tests:
+        for pi, pn in enumerate(("setup", "body", "teardown")):
+            for x in t["ph"][pi]:
+                for b in _bases(x):
+                    if b[0] == ":t":
+                        h = inner_run(b[2])[3]
+                        entered = h in ("xfail", "std", "other") and catches(b[1], h)
+                        extra.append("try-catch-%s-in-%s" % (b[1], pn))
+                        extra.append("try:catch-%s:block-leaves-%s:%s" % (b[1], h, "handler-entered" if entered else "handler-not-entered"))
+                        if entered: extra.append("try:handler-leaves-%s" % inner_run(b[3])[3])
+                        if h in ("xfail", "jump") and b[3] and b[1] != "all": extra.append("try:failing-check-in-front-of-a-typed-handler-with-statements")
+                    elif b[0] == ":w":
+                        extra.append("check-throws-%s:helper-leaves-%s" % (b[1], inner_run(b[4])[3]))
+                        extra.append("check-throws-in-%s" % pn)
+    if intercepting(tests): extra.append("catch-all-around-a-cxx-check (outside the oracle: model compared)")
+    if cfg[6]:
+        extra.append("macro-made-tests")
+        if any(t["ign"] for t in tests):
+            extra.append("macro:IGNORE_TEST-%s" % ("run-with-ri" if cfg[3] else "not-run"))
+        if cfg[3] and any(t["ign"] and _fails(t) and (t["sel"] or not cfg[2]) for t in tests): extra.append("macro:failing-IGNORE_TEST-run-with-ri")
+        if any(not (t["ph"][0] or t["ph"][2]) for t in tests): extra.append("macro:group-without-setup-teardown")
+        if any(t["ph"][0] or t["ph"][2] for t in tests): extra.append("macro:group-with-setup-teardown")
+    lab += sorted(set(extra))
     if any(t["pre"] for t in tests): lab.append("plugin-pre-failure")
     if any(t["post"] for t in tests): lab.append("plugin-post-failure")
     if any(_dependent(t) for t in tests):
@@ -654,7 +1011,7 @@ def extra_oracle(s, o, flavour):
     """third opinion on the exit-value clause, from the printed summaries alone and from a python reading of the program:
     the returned value is zero iff every repetition's summary reads OK iff every repetition of the program is OK"""
     cfg, tests = parse(s)
-    if cfg[1] or o.startswith("!") or o == "skip":
+    if cfg[1] or o.startswith("!") or o == "skip" or intercepting(tests):
         return None
     if cfg[5]:
         try:
@@ -671,10 +1028,14 @@ def extra_oracle(s, o, flavour):
     # ... and on the two clauses about single checks: every failure printed once where it happened, "checks" = counted checks executed
     if len(ob["reps"]) == n_reps(cfg):
         for r, rp in enumerate(ob["reps"]):
-            checks, fails = want_rep(cfg, tests, r)
+            checks, fails, subs = want_rep(cfg, tests, r, True)
             got = [tuple(int(x, 16) for x in f) for f in rp["fl"]]
             if got != fails:
                 return "repetition %d prints the failures (test, file, line, kind) %s, the program demands %s" % (r, got, fails)
+            gsub = [tuple(int(x, 16) for x in u) for u in rp["sb"]]
+            if gsub != subs:
+                return ("repetition %d: inside the try blocks the statements (test, phase, idx, sub) %s ran, the program demands %s "
+                        "(nothing behind a failing check, no handler entered for it)" % (r, gsub, subs))
             if rp["sm"] is not None and int(rp["sm"][4], 16) != checks:
                 return "the summary of repetition %d says %d checks, the program executed %d counted checks" % (r, int(rp["sm"][4], 16), checks)
     if not cfg[0] or ob["ret"] == "~":
@@ -770,7 +1131,8 @@ def parse_obs(o):
         else: sm = t[i + 1:i + 8]; i += 8
         if t[i] == "~": ct = None; i += 1
         else: ct = t[i + 1:i + 7]; i += 7
-        reps.append(dict(ev=ev, fl=fl, af=af, sm=sm, ct=ct))
+        n = int(t[i], 16); sb = [t[i + 1 + 4 * k:i + 5 + 4 * k] for k in range(n)]; i += 1 + 4 * n
+        reps.append(dict(ev=ev, fl=fl, af=af, sm=sm, ct=ct, sb=sb))
     return dict(escaped=t[0] != "0", ret=t[1], reps=reps)
 
 
@@ -779,6 +1141,8 @@ def signature(s, o):
     mode = "cli" if cfg[0] else "registry"
     if cfg[5]:
         mode = "console%s on a %s" % (" -p" if cfg[5][1] else "", "pipe" if cfg[5][0] == 1 else "file")
+    if cfg[6]:
+        mode += ", tests made by the public macros"
     if o.startswith("!"):
         return mode + ": " + o[:80]
     if cfg[5]:
@@ -810,6 +1174,24 @@ def signature(s, o):
         return mode + ": current test/result not restored after a test"
     if any(r["sm"] is None for r in ob["reps"]):
         return mode + ": summary missing"
+    if not cfg[1] and not intercepting(tests) and len(ob["reps"]) == n_reps(cfg):
+        for r, rp in enumerate(ob["reps"]):
+            subs = want_rep(cfg, tests, r, True)[2]
+            gsub = [tuple(int(x, 16) for x in u) for u in rp["sb"]]
+            if gsub != subs:
+                if any(u not in subs for u in gsub):
+                    return mode + ": inside a try block a statement ran that must not (behind a failing check, or a handler entered for the check's exit)"
+                return mode + ": inside a try block a statement that must run did not"
+            ran = set(int(e[0], 16) for e in rp["ev"])
+            for i, t in enumerate(tests):
+                if (not cfg[2] or t["sel"]) and (not t["ign"] or cfg[3]) and any(t["ph"]) and i not in ran:
+                    return mode + ": a test that is counted as run executed none of its setup / body / teardown" + (" (an ignored test run with -ri)" if t["ign"] else "")
+            wev = want_rep(cfg, tests, r, "all")["events"]
+            gev = [tuple(int(x, 16) for x in e[:3]) for e in rp["ev"]]
+            if gev != wev:
+                if any(e not in wev for e in gev):
+                    return mode + ": a statement of a phase ran that must not (behind a failing check or an escaping exception, or a body after a failed setup)"
+                return mode + ": a statement of a phase that must run did not"
     if cfg[0] and ob["ret"] != "~":
         printed = [r["sm"][0] == "1" for r in ob["reps"]]
         if (ob["ret"] == "0") != all(printed):
@@ -876,6 +1258,21 @@ def shrink(s):
             if t[key]:
                 t2 = dict(t); t2[key] = t[key][1:]
                 yield unparse(cfg, tests[:i] + [t2] + tests[i + 1:])
+    # smaller compound statements: fewer statements inside the block / the handler; a simpler handler type
+    def smaller(b):
+        if b[0] == ":t":
+            for j in range(len(b[3])): yield (b[0], b[1], b[2], b[3][:j] + b[3][j + 1:])
+            for j in range(len(b[2])): yield (b[0], b[1], b[2][:j] + b[2][j + 1:], b[3])
+            if b[1] not in ("std", "all"): yield (b[0], "std", b[2], b[3])
+        if b[0] == ":w":
+            for j in range(len(b[4])): yield b[:4] + (b[4][:j] + b[4][j + 1:],)
+    for i, t in enumerate(tests):
+        for p in range(3):
+            for k, x in enumerate(t["ph"][p]):
+                cands = [(":r", x[1], x[2], y, x[4]) for y in smaller(x[3])] + [(":r", x[1], x[2], x[3], y) for y in smaller(x[4])] if x[0] == ":r" else list(smaller(x))
+                for y in cands:
+                    t2 = dict(t); t2["ph"] = [list(z) for z in t["ph"]]; t2["ph"][p][k] = y
+                    yield unparse(cfg, tests[:i] + [t2] + tests[i + 1:])
     # earlier repetition numbers in the conditions
     for i, t in enumerate(tests):
         for p in range(3):
@@ -899,7 +1296,18 @@ LEVEL_TEXT = ("Machine-checked (Coq) theorems over an executable model of the te
               "'flush before fork and when the child leaves' (C01_stdio_once_iff), the seeded 'no flush' loses the child's record and duplicates the runner's "
               "(C01_stdio_noflush_refuted, C01_console_noflush_refuted); for every valid scenario run through the console, in one process or with -p, the records "
               "in the captured bytes are exactly the demanded ones, one summary per repetition with the true verdict, returned value zero iff every repetition OK "
-              "(C01_console_records_once, C01_console_summaries_true, C01_console_exit_value, C01_console_independent). PARTIAL: which operands make a given "
+              "(C01_console_records_once, C01_console_summaries_true, C01_console_exit_value, C01_console_independent). "
+              "User try blocks and CHECK_THROWS: machine-level step of every statement, simple or compound, from any state (C01_stmt_step); a failing check inside "
+              "a try block with a handler for ANY type leaves the phase the way the check does, enters no handler, runs nothing behind it and records "
+              "exactly one failure (C01_try_failing_check, C01_try_failing_check_step, C01_nothing_after_try_check); the framework's exception is caught by "
+              "catch (...) only (C01_failed_check_caught_only_by_catch_all); caught / uncaught exceptions of the program's own (C01_try_caught_exception, "
+              "C01_try_uncaught_exception), the four outcomes of CHECK_THROWS (C01_check_throws_cases); what is outside the oracle is exactly catch (...) / "
+              "CHECK_THROWS around a C++-style check that can fail (C01_intercepts_iff, C01_spec_out_of_scope); ignored tests: counted as ignored without "
+              "-ri, their OWN phases run and count with -ri (C01_ignored_not_run, C01_run_ignored_runs_own_phases, C01_run_ignored_started); the oracle "
+              "on the programs of red-team C01-1 / C01-2 accepts only observations without handler statements / with the ignored test's phases, and "
+              "rejects what the seeded trees show (C01_try_oracle, C01_try_std_handler_rejected, C01_run_ignored_oracle, "
+              "C01_run_ignored_not_instantiated_rejected). "
+              "PARTIAL: which operands make a given "
               "assert function fail is not modelled here (the comparison functions are C03/C13/C14's business): a check statement carries `agree`; "
               "real longjmp/unwinding is exhibited only by the "
               "instrumented runs (ASan/UBSan, builds with and without exceptions), which compare the extracted model with the real classes.")
